@@ -468,7 +468,7 @@ fn hammer(tier: Tier, ctx: &mut Ctx) -> Result<(), crate::runner::Violation> {
             for (ai, alpha) in alphas.iter().enumerate() {
                 for kind in [1u8, 3, 4, 5, 44] {
                     // kind 44: prefixes of a^40 b - a state carrying 40 matches
-                    let list = if kind == 44 { gen::PatList::Adversarial { kind: 4, k: 40, n: 40 } } else { gen::PatList::Adversarial { kind, k: 9 + ai as u8 * 3, n: 10 } };
+                    let list = if kind == 44 { gen::PatList::Adversarial { kind: 4, k: 40, n: 40 } } else { gen::PatList::Adversarial { kind, k: 9 + ai as u16 * 3, n: 10 } };
                     let patterns = gen::realize_patterns(&list, alpha);
                     let iterations = if kind == 44 { iterations / 6 } else { iterations };
                     let cfg = Cfg { engine, mk, sk: Sk::Unanchored, prefilter: kind % 2 == 0, dense_depth: 1, byte_classes: true, casei: false };
